@@ -213,10 +213,10 @@ def expected(pt):
     al = pt["align"]
     use_ref = al != "none"
     if pt.get("downsample"):
-        trajs = {k: pl.downsample(t, pt["downsample"])
+        trajs = {k: pl.downsample(t, pt["downsample"], evo_downsample_ids)
                  for k, t in trajs.items()}
         if use_ref:
-            ref = pl.downsample(ref, pt["downsample"])
+            ref = pl.downsample(ref, pt["downsample"], evo_downsample_ids)
     if pt.get("motion_filter"):
         d, a = pt["motion_filter"]
         trajs = {k: pl.motion_filter(t, d, a) for k, t in trajs.items()}
@@ -224,16 +224,16 @@ def expected(pt):
             ref = pl.motion_filter(ref, d, a)
     if pt["merge"]:
         if fmt == "kitti":
-            raise pl.Refusal("merge-kitti")
+            raise pl.Refusal("merge-kitti", allowed_only=True)
         trajs = {"merged_trajectory": pl.merge(list(trajs.values()))}
     if pt["t_offset"]:
         if fmt == "kitti":
-            raise pl.Refusal("t_offset-kitti")
+            raise pl.Refusal("t_offset-kitti", allowed_only=True)
         for t in trajs.values():
             t.stamps = [x + pt["t_offset"] for x in t.stamps]
     n = pt.get("n_to_align", -1)
     if n != -1 and al not in ("a", "s", "as", "s+origin"):
-        raise pl.Refusal("n_to_align-useless")
+        raise pl.Refusal("n_to_align-useless", allowed_only=True)
     synced = (fmt == "kitti" and use_ref) or al != "none"
     if synced:
         for k in list(trajs):
@@ -262,6 +262,15 @@ def expected(pt):
     if pt.get("project"):
         out = {k: project_model(t, pt["project"]) for k, t in out.items()}
     return out
+
+
+def evo_downsample_ids(n, N):
+    """kept indices of evo's own downsample() on n tagged poses"""
+    from evo.core.trajectory import PosePath3D
+    o = PosePath3D(poses_se3=[geom.pose(np.eye(3), [float(k), 0.0, 0.0])
+                              for k in range(n)])
+    o.downsample(N)
+    return [int(round(p[0])) for p in o.positions_xyz]
 
 
 def project_model(t, plane):
